@@ -2,6 +2,7 @@ package catalog
 
 import (
 	"encoding/json"
+	"errors"
 	"sync"
 
 	schema "github.com/jsightapi/jsight-schema-core"
@@ -10,6 +11,7 @@ import (
 	"github.com/jsightapi/jsight-schema-core/kit"
 	"github.com/jsightapi/jsight-schema-core/notations/jschema"
 
+	"github.com/jsightapi/jsight-api-core/jerr"
 	"github.com/jsightapi/jsight-api-core/notation"
 )
 
@@ -81,7 +83,36 @@ func NewExchangeJSightSchema[T bytes.ByteKeeper](
 		return nil, kit.NewJSchemaError(es.JSchema.File, errs.ErrEmptySchema.F())
 	}
 
+	if astDepthExceeds(&es.JSchema.ASTNode, maxSchemaDepth) {
+		return nil, errors.New(jerr.SchemaIsTooDeep)
+	}
+
 	return es, nil
+}
+
+// maxSchemaDepth limits the nesting of arrays and objects in a schema. Every
+// level of the schema is two levels of the catalog's JSON, which encoding/json
+// refuses beyond 10000, and the time to write it grows with the square of the
+// depth.
+const maxSchemaDepth = 1000
+
+func astDepthExceeds(n *schema.ASTNode, limit int) bool {
+	type item struct {
+		n     *schema.ASTNode
+		depth int
+	}
+	stack := []item{{n, 1}}
+	for len(stack) > 0 {
+		it := stack[len(stack)-1]
+		stack = stack[:len(stack)-1]
+		if it.depth > limit {
+			return true
+		}
+		for i := range it.n.Children {
+			stack = append(stack, item{&it.n.Children[i], it.depth + 1})
+		}
+	}
+	return false
 }
 
 func (e *ExchangeJSightSchema) Notation() notation.SchemaNotation {
